@@ -21,9 +21,10 @@ import (
 )
 
 var edgeInts = []int{0, 1, -1, 7, 1000000, -999999, math.MaxInt, math.MinInt}
-var edgeFloats = []float64{0.5, 1.0, -0.0, 123456.0, 1e6, 999999.5, 1e-6, 1.5e-7, 5e-324, 1e300, -1e-300, 1.7976931348623157e308, 0.1, 1234567.0, 100.0, 3.0e21}
+var edgeFloats = []float64{0.5, 1.0, -0.0, 123456.0, 1e6, 999999.5, 1e-6, 1.5e-7, 5e-324, 1e300, -1e-300, 1.7976931348623157e308, 0.1, 1234567.0, 100.0, 3.0e21,
+	float64(float32(0.1)), 1 + 1.0/8388608, 12345678848.0, 2e9, -3e-300, 5e-7, 1e21, 16777217.0, 9007199254740993.0}
 var edgeStrings = []string{"", "a", "a\"b", "back\\slash", "/", "\n\t\r", "\x01", "\a\v", "\x7f", "  ", "�", "\U0001F600", "\U000E0001", "é", "[{,:}]", "null", "1.0", " "}
-var edgeKeys = []string{"", "k", ".a", "#b", "a.b", "q\"t", "\x01", "�", "é", "\U0001F600"}
+var edgeKeys = []string{"", "k", ".a", "#b", "a.b", "q\"t", "\x01", "�", "é", "\U0001F600", "50%", "a%sb", "%d", "100%!", "k\\", "\\\\", "e\x1b", "n\n"}
 
 type leafSpec struct {
 	id  string
@@ -66,6 +67,15 @@ func treeSpecs(c *oracleCtx) []treeSpec {
 		out = append(out, treeSpec{fmt.Sprintf("O(key%d=L())", i), func() any { return NewObject(k, NewList()) }})
 	}
 	out = append(out, treeSpec{"L()", func() any { return NewList() }}, treeSpec{"O()", func() any { return NewObject() }})
+	// special keys x special string values (a key ending in a backslash followed by structural characters inside a
+	// string, percent signs in keys, control characters at the end of keys / values), flat and nested
+	for i, k := range edgeKeys {
+		for j, v := range []string{":}x", "]", "a\\", "\\\"", "%s", "x\x01", ",\"k\":1}"} {
+			k, v := k, v
+			out = append(out, treeSpec{fmt.Sprintf("O(key%d=sv%d)", i, j), func() any { return NewObject(k, v) }})
+			out = append(out, treeSpec{fmt.Sprintf("L(O(key%d=sv%d),sv%d)", i, j, j), func() any { return NewList(NewObject(k, v, "z", v), v) }})
+		}
+	}
 	// width 2 / depth 2 combinations over a reduced alphabet, exhaustive
 	small := []leafSpec{leaves[0], leaves[1], {"i1", 1}, {"f1", 1.0}, {"f2", -0.0}, {"s2", "a\"b"}, {"s6", "\x01"}, {"s10", "�"}, {"f0", 0.5},
 		{"sbs", "a\\"}, {"sbr", "]"}, {"sbc", "}"}, {"sq", "\\\""}}
@@ -354,6 +364,8 @@ func jsonDocs(c *oracleCtx) []string {
 	ws := []string{"", " ", "\n\t\r "}
 	scalars := []string{"null", "true", "false", "0", "-0", "1", "-1", "10", "1E5", "1e+5", "1e-5", "1.0", "0.5", "-1.5e3", "9223372036854775807", "9223372036854775808", "-9223372036854775808", "12345678901234567", "1.7976931348623157e308", "0.1e1",
 		`""`, `"a"`, `"\""`, `"\\"`, `"\/"`, `"\b\f\n\r\t"`, `"\u0041"`, `"\u00e9"`, `"\uD83D\uDE00"`, `"\ud83d\ude00"`, `" "`, `"é"`, `"` + "\uFFFD" + `"`, `"😀"`, `"a\\\"b"`, `"[{,:}]"`, `"\u0000"`, `"/"`, `"\u2028"`,
+		`"C:\\temp\\new\u00e9"`, `"\\u0041 and \u0042"`, `"\\n\u000a"`, `"\\\\\u005c"`, `"a\u0001"`, `"\u001b"`, `"x\\"`, `"\\/\/"`, `"\t\\t\u0009"`,
+		"9007199254740993", "1234567890123456789", "-9007199254740993", "4611686018427387905", "123456789012345678", "1e2", "100", "0e0", "0.0", "-0.0", "2E+2",
 		`"\ud800"`, `"\ud800\u0041"`, `"\udc00\ud83d\ude00"`, `"\ud800x"`, `"x\udfff"`, `"\ud83d\u00e9"`}
 	var docs []string
 	for _, s := range scalars {
